@@ -534,6 +534,26 @@ func mutOps() []mutOp {
 			*sc.list = append(*sc.list, &Sel{Kind: 2, Name: "NoSuchFragment"})
 			return "plain"
 		}},
+		{"duplicate-fragment-name", "", func(m *mut) string {
+			f, ok := pick(m.r, m.frags)
+			if !ok {
+				sc, ok2 := pick(m.r, m.compositeScopes())
+				if !ok2 {
+					return ""
+				}
+				n := m.fresh("Dup")
+				m.doc.Defs = append(m.doc.Defs, Def{Frag: &Frag{Name: n, On: sc.parent, Sels: []*Sel{{Kind: 0, Name: "__typename"}}}})
+				*sc.list = append(*sc.list, &Sel{Kind: 2, Name: n})
+				f = m.doc.Frag(n)
+			}
+			dup := &Frag{Name: f.Name, On: f.On, Sels: []*Sel{{Kind: 0, Alias: m.fresh("dupf"), Name: "__typename"}}}
+			if m.r.Chance(1, 2) {
+				m.doc.Defs = append(m.doc.Defs, Def{Frag: dup})
+				return "after"
+			}
+			m.doc.Defs = append([]Def{{Frag: dup}}, m.doc.Defs...)
+			return "before"
+		}},
 		{"fragment-cycle", "", func(m *mut) string {
 			switch m.r.Pick(3) {
 			case 0:
@@ -616,6 +636,48 @@ func mutOps() []mutOp {
 			return "named/" + kind
 		}},
 		{"conflict-different-args", "", func(m *mut) string {
+			if m.r.Chance(1, 4) {
+				// an interface and an object type that does NOT implement it: the parent types are not
+				// both object types, so names and arguments must still be identical
+				scs := m.compositeScopes()
+				m.r.Shuffle(len(scs), func(i, j int) { scs[i], scs[j] = scs[j], scs[i] })
+				for _, sc := range scs {
+					for _, it := range m.s.Types {
+						if it.Kind != "interface" || !m.s.Overlap(sc.parent, it.Name) {
+							continue
+						}
+						for _, ot := range m.s.Types {
+							if ot.Kind != "object" || ot.Implements(it.Name) || !m.s.Overlap(sc.parent, ot.Name) {
+								continue
+							}
+							for _, fi := range it.Fields {
+								fo := ot.Field(fi.Name)
+								if fo == nil || fo.T.String() != fi.T.String() || m.s.IsComposite(fi.T.Base()) {
+									continue
+								}
+								a := argOfType(fi, func(a IV) bool { return a.T.String() == "Int" })
+								if a == nil || argOfType(fi, func(a IV) bool { return a.T.Kind == 2 && a.Def == nil && a.T.String() != "Int!" }) != nil {
+									continue
+								}
+								mk := func(v string) []Arg {
+									out := []Arg{{a.Name, VInt(v)}}
+									for _, o := range fi.Args {
+										if o.Name != a.Name && o.T.Kind == 2 && o.Def == nil {
+											out = append(out, Arg{o.Name, VInt("5")})
+										}
+									}
+									return out
+								}
+								k := m.fresh("iv")
+								*sc.list = append(*sc.list,
+									&Sel{Kind: 1, Cond: it.Name, Sels: []*Sel{{Kind: 0, Alias: k, Name: fi.Name, Args: mk("1")}}},
+									&Sel{Kind: 1, Cond: ot.Name, Sels: []*Sel{{Kind: 0, Alias: k, Name: fi.Name, Args: mk("2")}}})
+								return "leaf/interface-vs-unrelated-object"
+							}
+						}
+					}
+				}
+			}
 			var c []*fsite
 			for _, f := range m.fields {
 				if f.fd != nil && len(f.fd.Args) > 0 && !(f.sc.root && m.op.Kind == "subscription") {
@@ -701,6 +763,21 @@ func mutOps() []mutOp {
 			return kind + "/" + changed
 		}},
 		{"conflict-different-names", "", func(m *mut) string {
+			if m.r.Chance(1, 5) {
+				for _, sc := range m.compositeScopes() {
+					td := m.s.Type(sc.parent)
+					if td == nil || td.Kind == "union" {
+						continue
+					}
+					for _, f := range td.Fields {
+						if f.T.String() == "String" && len(f.Args) == 0 {
+							k := m.fresh("zt")
+							*sc.list = append(*sc.list, &Sel{Kind: 0, Alias: k, Name: "__typename"}, &Sel{Kind: 0, Alias: k, Name: f.Name})
+							return "leaf/typename"
+						}
+					}
+				}
+			}
 			fs := append([]*fsite{}, m.fields...)
 			m.r.Shuffle(len(fs), func(i, j int) { fs[i], fs[j] = fs[j], fs[i] })
 			for _, f := range fs {
